@@ -180,6 +180,23 @@ FRAMES = [
      "ifcapacity==0{returnOk(Bump{current_chunk_footer:Cell::new(EMPTY_CHUNK.get()),allocation_limit:Cell::new(None),});}"),
     ("src/lib.rs", "try_with_min_align_and_capacity", "ctor_one_chunk_no_limit",
      "letchunk_footer=unsafe{Self::new_chunk(Self::new_chunk_memory_details(None,layout).ok_or(AllocErr)?,layout,EMPTY_CHUNK.get(),).ok_or(AllocErr)?};Ok(Bump{current_chunk_footer:Cell::new(chunk_footer),allocation_limit:Cell::new(None),})"),
+    # placing values: one write of f()'s result, a copy of exactly src.len() elements, clones and
+    # initialisers in index order, one call per index
+    ("src/lib.rs", "alloc_with", "alloc_with_writes_result_once",
+     "letlayout=Layout::new::<T>();unsafe{letp=self.alloc_layout(layout);letp=p.as_ptr()as*mutT;inner_writer(p,f);&mut*p}"),
+    ("src/lib.rs", "alloc_with", "alloc_with_inner_writer", "{ptr::write(ptr,f());}"),
+    ("src/lib.rs", "alloc_slice_copy", "slice_copy_copies_len_elements",
+     "{letlayout=Layout::for_value(src);letdst=self.alloc_layout(layout).cast::<T>();unsafe{ptr::copy_nonoverlapping(src.as_ptr(),dst.as_ptr(),src.len());slice::from_raw_parts_mut(dst.as_ptr(),src.len())}}"),
+    ("src/lib.rs", "alloc_slice_clone", "slice_clone_in_order",
+     "unsafe{for(i,val)insrc.iter().cloned().enumerate(){ptr::write(dst.as_ptr().add(i),val);}slice::from_raw_parts_mut(dst.as_ptr(),src.len())}"),
+    ("src/lib.rs", "alloc_str", "alloc_str_copies_bytes",
+     "{letbuffer=self.alloc_slice_copy(src.as_bytes());unsafe{str::from_utf8_unchecked_mut(buffer)}}"),
+    ("src/lib.rs", "alloc_slice_fill_with", "slice_fill_in_index_order",
+     "unsafe{foriin0..len{ptr::write(dst.as_ptr().add(i),f(i));}letresult=slice::from_raw_parts_mut(dst.as_ptr(),len);"),
+    ("src/lib.rs", "try_alloc_slice_fill_with", "try_slice_fill_in_index_order",
+     "unsafe{foriin0..len{ptr::write(dst.as_ptr().add(i),f(i));}letresult=slice::from_raw_parts_mut(dst.as_ptr(),len);"),
+    ("src/lib.rs", "alloc_slice_fill_iter", "slice_fill_iter_takes_next_per_index",
+     "{letmutiter=iter.into_iter();self.alloc_slice_fill_with(iter.len(),|_|{iter.next().expect("),
     # chunk iteration: start at the current footer, stop at the sentinel, follow prev; the safe
     # iterator wraps the raw one; the metadata total counts the raw iterator's items
     ("src/lib.rs", "as_raw_parts", "chunk_parts_returned", "(ptr,len)}"),
